@@ -871,7 +871,7 @@ theorem exec_moves {name : Asset → String} {w w' : World} {op : Op} {out : Out
     obtain ⟨w1, h1, rfl, _⟩ := h
     refine facExec_moves (S := Touched w (.factory s f m)) h1 (.inl rfl) (.inr rfl) ?_
     intro hF a0 a1 req c np nl hm
-    exact (hF s f a0 a1 req c np nl (by rw [hm])).2
+    exact (hF s f a0 a1 req c np nl (by rw [hm])).2.1
 
 /-! ### the C07 statements -/
 
